@@ -1174,12 +1174,8 @@ class Interp:
         return self.e_ListComp(ctx, node, env)
 
     def e_SetComp(self, ctx, node, env):
-        items = self.e_ListComp(ctx, node, env).items
-        out = []
-        for x in items:  # a set: equal elements collapse (equality decided on this path)
-            if not any(ctx.truth(self.eq(ctx, x, y)) for y in out):
-                out.append(x)
-        return VTuple(out)
+        from .values import VSet
+        return VSet(self.e_ListComp(ctx, node, env).items)
 
     def e_DictComp(self, ctx, node, env):
         d = VDict()
